@@ -40,6 +40,14 @@ res = {}
 try:
     rc, out = sh("go build ./... && go test -vet=off -count=1 ./... 2>&1 | grep -v 'no test files' | grep -v '^ok' ; exit ${PIPESTATUS[0]}", cwd=R)
     rc2, out2 = sh("go test -vet=off -count=1 ./...", cwd=R)
+    for _ in range(3):
+        # /repo's own Test3pe2e is flaky (it zeroes one ticket byte and expects the ticket to stop opening: about one
+        # run in 128 the byte already is zero): a failure of that test alone is re-run
+        fails = [l for l in out2.splitlines() if l.startswith("--- FAIL")]
+        if rc2 != 0 and fails and all("Test3pe2e" in l for l in fails):
+            rc2, out2 = sh("go test -vet=off -count=1 ./...", cwd=R)
+        else:
+            break
     print("build+tests:", "pass" if rc2 == 0 else "FAIL\n" + out2[-1500:])
     for cid in ids:
         rc, out = sh(["./check", cid, "--tier", tier], cwd=V)
